@@ -52,6 +52,24 @@ static Scn chain(int variant) {
         barrier(); if (id == 0) { waitret(*G, 1); release_helpers(); } else help(id);
     }, nullptr};
 }
+// a multifunction_node (limit 2 or serial + rejecting) whose body forwards every message to BOTH output ports; BE is logged before the outputs are put (a successor may
+// begin a message only after the logged end of the producing body), the real body is still running then - the logged concurrency is a lower bound of the real one
+static Scn mfn(bool rej) {
+    typedef multifunction_node<int, std::tuple<int, int>> MF; typedef multifunction_node<int, std::tuple<int, int>, rejecting> MFR;
+    return {3, [rej](int id) {
+        auto body = [](const int& m, MF::output_ports_type& ports) { __atomic_add_fetch(&g_live, 1, __ATOMIC_SEQ_CST); TR.emit("{\"e\":\"BB\",\"n\":1,\"m\":%d}", m);
+            for (int i = 0; i < 2; i++) cosched::yield_point(); TR.emit("{\"e\":\"BE\",\"n\":1,\"m\":%d}", m); __atomic_sub_fetch(&g_live, 1, __ATOMIC_SEQ_CST);
+            std::get<0>(ports).try_put(m); cosched::yield_point(); std::get<1>(ports).try_put(m); };
+        if (id == 0) { G = new graph;
+            reg(2, new function_node<int, int>(*G, serial, Body{2, 1})); reg(3, new function_node<int, int>(*G, unlimited, Body{3, 2}));
+            if (!rej) { auto* mf = new MF(*G, 2, body); RX[1] = mf; make_edge(output_port<0>(*mf), *RX[2]); make_edge(output_port<1>(*mf), *RX[3]); node(1, "fn", 2); }
+            else { auto* mf = new MFR(*G, serial, body); RX[1] = mf; make_edge(output_port<0>(*mf), *RX[2]); make_edge(output_port<1>(*mf), *RX[3]); node(1, "fn", 1); }
+            node(2, "fn", 1); node(3, "fn", 0); edge(1, 2); edge(1, 3); publish(); }
+        await_graph();
+        for (int k = 0; k < 3; k++) { int m = 1 + id * 3 + k; msg(m); put(*RX[1], 1, m, m); }
+        barrier(); if (id == 0) { waitret(*G, 1); release_helpers(); } else help(id);
+    }, nullptr};
+}
 static Scn fan() {          // broadcast -> two sinks with different limits; a second source feeds one of them directly
     return {3, [](int id) {
         if (id == 0) { G = new graph; BC = new broadcast_node<int>(*G); reg(2, new function_node<int, int>(*G, serial, Body{2, 2})); reg(3, new function_node<int, int>(*G, unlimited, Body{3, 1}));
@@ -291,6 +309,7 @@ static Scn make(const std::string& s) {
     if (s == "twolim") return twolim();
     if (s == "prio") return prio(); if (s == "reserve") return reserve(); if (s == "reserve2") return reserve2(); if (s == "ow") return owr(false); if (s == "wo") return owr(true); if (s == "split") return route(false); if (s == "indexer") return route(true);
     if (s == "input") return inputn(); if (s == "async") return asyncn(); if (s == "limitc1") return limitc(1); if (s == "limitc2") return limitc(2);
+    if (s == "mfn") return mfn(false); if (s == "mfnR") return mfn(true);
     if (s == "chain0") return chain(0); if (s == "chain1") return chain(1); if (s == "chainR") return chain(2); if (s == "fan") return fan(); if (s == "fifo") return fifo();
     if (s.rfind("seq", 0) == 0) return seqr((unsigned)atoi(s.c_str() + 3)); if (s == "limit1") return limit(1); if (s == "limit2") return limit(2);
     if (s == "joinq") return joinq(0); if (s == "joinr") return joinq(1); if (s == "joink") return joinq(2); if (s == "cancel") return cancel();
